@@ -1,6 +1,7 @@
 /* C19, header scan on real bytes: Session::process takes MsgSeqNum from the inbound bytes before decoding.  The message here is
    8=F<SOH>49=<4 arbitrary non-SOH bytes><SOH>34=<d><SOH> : a SenderCompID *value* of arbitrary content followed by the real MsgSeqNum
    field with value d.  The session is continuous and expects d, so the message is in sequence and must be delivered as number d. */
+#define SESS_C "sess_scan.c"      /* translation with the real fast_atoi<unsigned> */
 #include "sess_in_world.h"
 uint8_t cx_v[4], cx_d; uint32_t cx_seen;
 int main(void)
